@@ -157,6 +157,32 @@ def rule_pipeline(ctx):
     def is_mod_branch(n):
         return n.kind == "test" and isinstance(n.ast, ast.If) and norm(n.ast.test) in ("'modified' in kwargs", '"modified" in kwargs')
     f = stage("modified-branch", is_mod_branch, "if 'modified' in kwargs: <compare> else: <clock + fudge>")
+    if f and c_ and kw_first:
+        # ... and "supplied" means supplied through EITHER channel of change: a `modified` given in custom_properties is brought
+        # under the same test (moved into the keyword arguments before the branch), or it is silently replaced by the clock
+        # reading -- neither compared with the old time nor applied
+        kwn = fi.kwarg or "kwargs"
+        fl2 = flow_of(fi)
+        moved = []
+        for n_ in body_walk(fi.node):
+            val = None
+            if isinstance(n_, ast.Call) and isinstance(n_.func, ast.Attribute) and n_.func.attr == "setdefault" and norm(n_.func.value) == kwn \
+                    and len(n_.args) == 2 and isinstance(n_.args[0], ast.Constant) and n_.args[0].value == "modified":
+                val = n_.args[1]
+            elif isinstance(n_, ast.Assign) and isinstance(n_.targets[0], ast.Subscript) and norm(n_.targets[0].value) == kwn \
+                    and isinstance(n_.targets[0].slice, ast.Constant) and n_.targets[0].slice.value == "modified":
+                val = n_.value
+            if val is not None and n_.lineno < f[0].ast.lineno and "custom_properties" in [x for x in fl2.prov(val).consts if isinstance(x, str)]:
+                moved.append(n_)
+        tested = f[0].ast.test.comparators[0] if isinstance(f[0].ast.test, ast.Compare) else None
+        both = tested is not None and "custom_properties" in [x for x in fl2.prov(tested, g.node_of(f[0].ast)).consts if isinstance(x, str)]
+        run.check(bool(moved) or both, R, key(rel, fi.qualname, "supplied-modified-either-channel"),
+                  "a `modified` time supplied through custom_properties is neither compared with the old one nor applied: the branch "
+                  "looks at the keyword names only, takes the clock, and the keyword argument it stores shadows the value given -- "
+                  "obj.new_version(custom_properties={'modified': <earlier>}) is accepted, {'modified': <later>} is ignored", file=rel,
+                  line=f[0].ast.lineno, function=fi.qualname,
+                  expected="kwargs.setdefault('modified', kwargs['custom_properties']['modified']) before the branch (or a test of both)",
+                  found=norm(f[0].ast.test))
     if f:
         br = f[0].ast
         sup = [s for s in br.body if isinstance(s, ast.If) and any(isinstance(x, ast.Raise) for x in s.body)]
